@@ -17,6 +17,7 @@ import IbicusModel.Lemmas.C06Rank
 import IbicusModel.Lemmas.C06Years
 import IbicusModel.Lemmas.C06Except
 import IbicusModel.Lemmas.C06Isimip
+import IbicusModel.Lemmas.C06Months
 import IbicusModel.Lemmas.IsimipModel
 import IbicusModel.Lemmas.GenDebiasers
 
@@ -702,6 +703,33 @@ theorem isimip_rw_time_order_equivariant_partial (c : Cfg) (fam : IsiFamily) (o 
     (fun ob h x io ih ix hx => isimip_window_pointwise_orderfree_partial c fam o (drw ix) ob h x _ _ _ hd hl hu hx)
     (isimipCtx c fam o) rankRead (fun _ _ _ _ _ _ => rfl)
   exact ⟨fun ob ob' h h' x x' ho hh hx => isimipCtx_perm c fam o ho hh hx, fun m x x' hx => rankRead_perm m hx⟩
+
+open Model.Isimip in
+/-- **ISIMIP month mode** (`running_window_mode = False`: the loop over the calendar months), partial under the same
+    restrictions as `isimip_rw_time_order_equivariant_partial`: either both runs succeed and the result is permuted like
+    `cm_future`, or both raise the same error. -/
+theorem isimip_months_time_order_equivariant_partial (c : Cfg) (fam : IsiFamily) (o : Oracles) (drw : List Nat → Draws)
+    (yearsO yearsH yearsF : List Int) (hd : c.detrending = false)
+    (hl : (c.hasLowerBound && c.hasLowerThreshold) = false) (hu : (c.hasUpperBound && c.hasUpperThreshold) = false)
+    (mO mH mF : List Int) (obs hist fut : List Rat) (pO pH pF : List Nat)
+    (hpO : pO.Perm (List.range obs.length)) (hpH : pH.Perm (List.range hist.length))
+    (hpF : pF.Perm (List.range fut.length))
+    (hlO : mO.length = obs.length) (hlH : mH.length = hist.length) (hlF : mF.length = fut.length)
+    (hr : ∀ m ∈ mF, 1 ≤ m ∧ m ≤ 12) (hnd : fut.Nodup) :
+    (∃ out, applyLocationMonths (winFn c fam (fun _ => o) drw yearsO yearsH yearsF) mO mH mF obs hist fut = .ok out ∧
+      applyLocationMonths (winFn c fam (fun _ => o) drw yearsO yearsH yearsF) (take mO pO) (take mH pH) (take mF pF)
+        (take obs pO) (take hist pH) (take fut pF) = .ok (take out pF)) ∨
+    (∃ e, applyLocationMonths (winFn c fam (fun _ => o) drw yearsO yearsH yearsF) mO mH mF obs hist fut = .error e ∧
+      applyLocationMonths (winFn c fam (fun _ => o) drw yearsO yearsH yearsF) (take mO pO) (take mH pH) (take mF pF)
+        (take obs pO) (take hist pH) (take fut pF) = .error e) := by
+  have hff : ∀ ob h x (io ih ix : List Nat), x.Nodup → winFn c fam (fun _ => o) drw yearsO yearsH yearsF ob h x io ih ix =
+      (fun ob h x (_ _ _ : List Nat) => (isimipCtx c fam o ob h x).map (fun m => x.map (rankRead m x))) ob h x io ih ix :=
+    fun ob h x io ih ix hx => isimip_window_pointwise_orderfree_partial c fam o (drw ix) ob h x _ _ _ hd hl hu hx
+  rw [applyLocationMonths_congr_nodup _ _ hff mO mH mF obs hist fut hnd,
+    applyLocationMonths_congr_nodup _ _ hff _ _ _ _ _ _ (take_perm_nodup fut pF hpF hnd)]
+  exact equivariance_months_E _ (isimipCtx c fam o) rankRead (fun _ _ _ _ _ _ => rfl)
+    ⟨fun ob ob' h h' x x' ho hh hx => isimipCtx_perm c fam o ho hh hx, fun m x x' hx => rankRead_perm m hx⟩
+    mO mH mF obs hist fut pO pH pF hpO hpH hpF hlO hlH hlF hr
 
 /-! ## 10. The hypotheses are satisfiable (non-vacuity) -/
 
